@@ -375,7 +375,8 @@ def write_evidence(pid, prop, tier, seed, outcomes, wall, o, cg_s, stubs_log, vi
     decided = [r for r in outcomes if r.state in ("pass", "violation")]
     nontrivial = [r for r in outcomes if r.state == "pass" and r.covers and all(ok for d, ok in r.covers
                                                                                if d not in r.h.expect_unsat_covers)]
-    obligations = sum(r.nprops for r in decided)
+    # safety/functional obligations; kani::cover! witnesses are reported separately per sample
+    obligations = sum(r.nprops - len(r.covers) for r in decided)
     discharged = sum(r.nsuccess for r in decided)
     samples = []
     for r in outcomes:
